@@ -318,7 +318,8 @@ func c14Run(c *Ctx) {
 			o1.LeafSet = 2
 			layers = append(layers, sweepLayer{"L1", o1, 1, nil})
 		}
-		fsets := []Flags{{Z: fam.re}, {Z: fam.re, N: true, B: true}}
+		// the selective flag next to each other mode: the verdicts must be the same
+		fsets := []Flags{{Z: fam.re}, {Z: fam.re, N: true, B: true}, {Z: fam.re, W: true, I: true, R: customReplacement}, {Z: fam.re, Y: true}}
 		sweep(c, layers, func(sc *sweepCase) bool {
 			if sc.C.Root.HasDup() || len(sc.C.Secrets) == 0 {
 				return false
@@ -334,6 +335,9 @@ func c14Run(c *Ctx) {
 			}
 			for fi2, fl := range fsets {
 				if fi2 == 1 && sc.Layer == "L2" {
+					break
+				}
+				if fi2 >= 2 && sc.Layer != "L0" {
 					break
 				}
 				fl.Apply()
